@@ -59,6 +59,15 @@ def handle : List String → Option String
       (parseHex (String.ofList rest)).bind fun bs =>
         (String.fromUTF8? (ByteArray.mk (bs.map UInt8.ofNat).toArray)).map fun s => showInfo (infoStr s.toList)
     | _ => none
+  | ["infor", n, t] =>
+    match n.toNat?, t.toList with
+    | some h, 'x' :: rest =>
+      if h < 2 ^ 32 then
+        (parseHex (String.ofList rest)).bind fun bs =>
+          (String.fromUTF8? (ByteArray.mk (bs.map UInt8.ofNat).toArray)).map fun s =>
+            showInfo (infoCheckedReg h (some s.toList))
+      else none
+    | _, _ => none
   | ["pair", a, b] =>
     match a.toNat?, b.toNat? with
     | some a, some b =>
